@@ -149,6 +149,126 @@ func checkC06(c *Ctx, r *Report) {
 	kindRule(c, r)
 	crossSignRule(c, r)
 	exactStoreRule(c, r)
+	tagNameRule(c, r)
+}
+
+// tagNameRule (R06g): in a struct tag `name,opt,opt` only the parts after the first comma are
+// options. parseTags must compare nothing but elements of index >= 1 of the split tag with its
+// option words: a field renamed to "ignore" or "inline" is a field with that name, not an option.
+func tagNameRule(c *Ctx, r *Report) {
+	r.Rule("R06g", "parseTags interprets only the parts after the first comma as options: every comparison with an option word reads an element of index >= 1 of the split tag", 4)
+	fn := c.Func("", "parseTags")
+	n := 0
+	Instrs(fn, false, func(in ssa.Instruction) {
+		bo, ok := in.(*ssa.BinOp)
+		if !ok || bo.Op != token.EQL {
+			return
+		}
+		var word string
+		var other ssa.Value
+		if w, isS := ConstString(bo.Y); isS {
+			word, other = w, bo.X
+		} else if w, isS := ConstString(bo.X); isS {
+			word, other = w, bo.Y
+		} else {
+			return
+		}
+		if word == "" {
+			return
+		}
+		n++
+		ok2, why := elementFromIndexOne(other, 0)
+		r.Check(ok2, "R06g", c.FnName(fn), "option word "+word, c.Pos(bo.Pos()), why, "the option word \""+word+"\" is compared with a part of the tag that can be the name part ("+why+"): a field whose tag renames it to that word is treated as carrying the option (skipped, inlined) in both directions and its value does not survive")
+	})
+	if n == 0 {
+		r.add("R06g", c.FnName(fn), "option words", c.Pos(fn.Pos()), Undecided, true, "no comparison with an option word found in parseTags")
+	}
+}
+
+// elementFromIndexOne: v is an element of a slice re-sliced from index >= 1 (x[1:]), or x[i] with a
+// counter that starts at a constant >= 1.
+func elementFromIndexOne(v ssa.Value, d int) (bool, string) {
+	if d > 6 {
+		return false, "too deep"
+	}
+	switch x := v.(type) {
+	case *ssa.UnOp:
+		if x.Op != token.MUL {
+			return false, "not an element load"
+		}
+		ia, ok := x.X.(*ssa.IndexAddr)
+		if !ok {
+			// range variable spilled into a local
+			if vals, ok := localStores(x.X); ok && len(vals) > 0 {
+				for _, s := range vals {
+					if ok, why := elementFromIndexOne(s, d+1); !ok {
+						return false, why
+					}
+				}
+				return true, "element of the tag parts after the name"
+			}
+			return false, "not an element load"
+		}
+		if sl, ok := ia.X.(*ssa.Slice); ok && sl.Low != nil {
+			if k, isK := ConstInt(sl.Low); isK && k >= 1 {
+				return true, "element of parts[1:]"
+			}
+		}
+		// x[i] with i a loop counter starting at a constant >= 1
+		idx := ia.Index
+		if b, ok := idx.(*ssa.BinOp); ok && b.Op == token.ADD {
+			// rotated range loops index with phi+1
+			if phi, ok := b.X.(*ssa.Phi); ok {
+				if k, isK := ConstInt(b.Y); isK {
+					if lo, ok := phiInit(phi); ok && lo+k >= 1 {
+						return true, "element with index starting at " + itoa(lo+k)
+					}
+				}
+			}
+		}
+		if phi, ok := idx.(*ssa.Phi); ok {
+			if lo, ok := phiInit(phi); ok && lo >= 1 {
+				return true, "element with index starting at " + itoa(lo)
+			}
+		}
+		return false, "element of the whole split tag, index can be 0"
+	case *ssa.Phi:
+		for _, e := range x.Edges {
+			if ok, why := elementFromIndexOne(e, d+1); !ok {
+				return false, why
+			}
+		}
+		return true, "element of the tag parts after the name"
+	case *ssa.Call:
+		// strings.TrimSpace(elem) and the like keep the provenance
+		if f := x.Call.StaticCallee(); f != nil && f.Pkg != nil && f.Pkg.Pkg.Path() == "strings" && len(x.Call.Args) >= 1 {
+			return elementFromIndexOne(x.Call.Args[0], d+1)
+		}
+	}
+	return false, "not an element of the split tag"
+}
+
+// phiInit: the constant a loop counter starts with (its only non-self-derived edge).
+func phiInit(phi *ssa.Phi) (int64, bool) {
+	var init *int64
+	for _, e := range phi.Edges {
+		if k, ok := ConstInt(e); ok {
+			if init != nil && *init != k {
+				return 0, false
+			}
+			kk := k
+			init = &kk
+			continue
+		}
+		if b, ok := e.(*ssa.BinOp); ok && (b.X == ssa.Value(phi) || b.Y == ssa.Value(phi)) {
+			continue
+		}
+		return 0, false
+	}
+	if init == nil {
+		return 0, false
+	}
+	return *init, true
 }
 
 // exactStoreRule (R06f): numbers and booleans enter the config as the reflect accessor's own result
